@@ -838,7 +838,10 @@ class Engine:
         from ppci.binutils.dbg.gdb import rsp as _rsp  # noqa: F401  (import errors are machinery failures)
 
         cap = R.Rig("real", 1)
-        capv = cap.cap if isinstance(cap.cap, int) and 0 <= cap.cap < 1000 else 1
+        # Queue(maxsize=0) is unbounded
+        capv = 1
+        if isinstance(cap.cap, int) and not isinstance(cap.cap, bool):
+            capv = cap.cap if 1 <= cap.cap < 1000 else (999 if cap.cap <= 0 else 1)
         cap.close()
 
         if ctx.only is not None:
@@ -868,6 +871,19 @@ class Engine:
             ctx.cov["traces_validated_against_impl"] += len(traces)
             ctx.cov["traces_rejected"] = len(rej)
             report_rejections(ctx, traces, rej)
+            if th:
+                # other retry budgets for the retransmission loop (reference-decoder double)
+                for budget in (1, 3):
+                    extra = []
+                    for k in range(300):
+                        tid = "rand:ref:budget%d:%d" % (budget, k)
+                        extra.append(_rec(lambda: random_trace(ctx, tid, "ref", "ref", budget, 40), tid))
+                    for t in extra:
+                        ctx.count("T:" + t["id"])
+                    rej2 = validate(ctx, jobs, extra, budget, capv, "T %d random traces, budget %d" % (len(extra), budget))
+                    ctx.cov["traces_validated_against_impl"] += len(extra)
+                    ctx.cov["traces_rejected"] += len(rej2)
+                    report_rejections(ctx, extra, rej2)
             self.generate(ctx, jobs, flags, capv, th)
         finally:
             mthread.join()
@@ -885,7 +901,7 @@ class Engine:
     def generate(self, ctx, jobs, flags, capv, th):
         g_framing(ctx, jobs, flags, capv, 3 if th else 2)
         lim = dict(calls=3, peer=2, notif=1, nack=3, lost=1, spur=2, corrupt=1)
-        n = 1000 if th else 60
+        n = 400 if th else 60
         g_simulate(ctx, jobs, flags, capv, "real", n, 45, "G simulate as-built model, real decoder", lim, (97, 125), (43,))
         g_simulate(ctx, jobs, [f for f in flags if f in HANDLER_FLAGS], capv, "ref", n, 45,
                    "G simulate as-built handler, reference-decoder double", lim, (97, 125), (43,))
